@@ -10,6 +10,7 @@ META = dict(assumptions=[
     "ideal AEAD / key wrap: decrypt/unwrap return the recorded plaintext iff key, nonce and the complete ciphertext equal a record, otherwise raise; ideal KDF is a function "
     "with fresh, collision-free outputs. The check therefore establishes that every blob byte that can influence the returned bytes reaches the authenticated primitives "
     "unchanged and nothing bypasses them; the strength of GCM / AES-KW themselves is outside the claim.",
+    "rekeyed_blob: outputs of the ideal KDF are unguessable - none equals a public constant the forger uses as key material (probability 2^-512 for the real KDF)",
 ])
 P = "C04"
 
@@ -49,5 +50,50 @@ def altered_blob(c, kind, p, layout):
     lay = blobmut.blob_layout(layout)
     concrete = not (kind == "byte" and p in lay["edges"])
     w, pt, out = blobmut.unprotect_altered(c, kind, p, layout, concrete=concrete)
+    c.check(seq_eq(out, pt), "an altered blob decrypted to different plaintext")
+    return True
+
+
+def _rekey_params(tier):
+    secrets = ["empty", "zeros", "key_info", "root_key_id", "target_sd"]
+    if tier == "quick":
+        pos = [(31, 31), (31, 30), (30, 31), (0, 0), (9, 6)]
+        return [dict(pos=p, secret=secrets[i % 5], layout=("envelope", "trailing")[i % 2]) for i, p in enumerate(pos)] + [dict(pos=(31, 31), secret=s, layout="envelope") for s in secrets[1:]]
+    out = [dict(pos=(a, b), secret="empty", layout=("envelope", "trailing")[(a + b) % 2]) for a in range(32) for b in range(32)]
+    out += [dict(pos=p, secret=s, layout="envelope") for p in [(31, 31), (31, 30), (30, 31), (0, 0), (0, 31), (31, 0), (9, 6)] for s in secrets[1:]]
+    return out
+
+
+@harness(P, per_job=True, params=_rekey_params, raises=(Exception,), max_steps=3000000,
+         bounds="multi-site mutation by a party that holds no secret: of a valid blob, the key identifier's L1/L2 are set to a listed position (quick: 5; thorough: every (L1,L2) in [0,31]^2), "
+         "key_info to 32 symbolic octets, the wrapped CEK to an ideal key wrap of a forger-chosen CEK under KDF(SHA512, s, 'KDS service', key_info) for a publicly known s "
+         "(empty, 64 zero octets, key_info itself, the root key id, the target SD), and nonce + content to the forger's own AES-GCM output over symbolic bytes; decryption "
+         "with the root key must fail (the victim's KEK must depend on the root key)", outside="forgeries built from other public values",
+         must_reach=("rekeyed blob built",))
+def rekeyed_blob(c, pos, secret, layout):
+    import dataclasses
+
+    import dpapi_ng
+    from cryptography.hazmat.primitives import hashes
+    from dpapi_ng import _blob
+
+    from . import e2e, refs
+
+    w, pt, root, blob = blobmut.make_blob(c, layout="envelope")
+    y = c.call(_blob.DPAPINGBlob.unpack, blob)
+    ki = c.bytes("forged_key_info", 32)
+    sd = _blob.SIDDescriptor(e2e.SIDS[1]).get_target_sd()
+    s = {"empty": b"", "zeros": bytes(64), "key_info": ki, "root_key_id": e2e.RK.bytes_le, "target_sd": sd}[secret]
+    if secret in ("empty", "zeros", "root_key_id", "target_sd"):
+        w.declare_public(s)  # derived keys are unguessable: none of them equals this constant (2^-512 for a real KDF)
+    kek = w.kdf(hashes.SHA512(), s, "KDS service\0".encode("utf-16-le"), ki, 32)
+    cek, evil, nonce = c.bytes("forged_cek", 32), c.bytes("evil", blobmut.PT_LEN), c.bytes("forged_nonce", 12)
+    enc_cek = w.aes_key_wrap(kek, cek)
+    content = w.aesgcm_class()(cek).encrypt(nonce, evil, None)
+    kid = dataclasses.replace(y.key_identifier, l1=pos[0], l2=pos[1], key_info=ki)
+    forged = _blob.DPAPINGBlob(kid, y.protection_descriptor, enc_cek, y.enc_cek_algorithm, None, content, y.enc_content_algorithm, refs.ref_gcm_parameters(nonce))
+    bad = c.call(forged.pack, blob_in_envelope=(layout == "envelope"))
+    c.reach("rekeyed blob built")
+    out = c.call(dpapi_ng.ncrypt_unprotect_secret, bad, cache=e2e.loaded_cache(c, root, "SHA512"))
     c.check(seq_eq(out, pt), "an altered blob decrypted to different plaintext")
     return True
